@@ -172,7 +172,7 @@ def _partial_cases(draw):
         pts = sorted(draw(st.lists(st.integers(0, m).map(lambda k: k / Nn), min_size=3, max_size=3)))
     return dict(stratum=stratum, s=dict(pos=pos, neg=neg, ep=ep, en=en, mode="float",
                        container=draw(st.sampled_from(["f64", "f64", "list", "f128", "f32"]))), lims=pts,
-                lim_kind=draw(st.sampled_from(["float", "float", "int", "np"])))
+                lim_kind=draw(st.sampled_from(["float", "float", "int", "np", "np32", "np16"])))
 
 
 def check_partial(case):
@@ -185,12 +185,19 @@ def check_partial(case):
     if s.get("container") == "f32" and any(float(np.float32(v)) != v for v in pos + neg):
         s = dict(s, container="f64")
 
+    if kind in ("np32", "np16") and stratum == "general":
+        # limits taken from a single / half precision grid: the window meant is the one between the values held
+        dt_ = np.float32 if kind == "np32" else np.float16
+        lo, mid, up = sorted(float(dt_(v)) for v in (lo, mid, up))
+
     def L(v):
         """The limit as the caller may write it: 0 and 1 as Python integers, or NumPy scalars."""
         if kind == "int" and v in (0.0, 1.0):
             return int(v)
         if kind == "np":
             return np.float64(v)
+        if kind in ("np32", "np16") and stratum == "general" and float((np.float32 if kind == "np32" else np.float16)(v)) == v:
+            return (np.float32 if kind == "np32" else np.float16)(v)
         return v
 
     for sc, ec in CONFIGS:
